@@ -260,7 +260,7 @@ func c13Op(tc *c13Case, doc map[string]any) map[string]any {
 }
 
 // c13Request builds the request of one request description; returns it with the body bytes sent.
-func c13Request(tc *c13Case, path string) (*http.Request, string) {
+func c13Request(tc *c13Case, path string, clientGB *int) (*http.Request, string) {
 	if tc.Kind == "param" {
 		hdr := http.Header{}
 		var q []string
@@ -296,7 +296,10 @@ func c13Request(tc *c13Case, path string) (*http.Request, string) {
 		bt := bodyText
 		// bodies that really honour Close (a re-opened spool file does): reading after Close fails
 		req.Body = &c13Closable{r: strings.NewReader(bt)}
-		req.GetBody = func() (io.ReadCloser, error) { return &c13Closable{r: strings.NewReader(bt)}, nil }
+		req.GetBody = func() (io.ReadCloser, error) {
+			*clientGB++
+			return &c13Closable{r: strings.NewReader(bt)}, nil
+		}
 	} else {
 		req.GetBody = nil
 	}
@@ -347,6 +350,8 @@ type c13Live struct {
 	pp    map[string]string
 	opts  *openapi3filter.Options
 	sent  string
+	// number of calls of the GetBody the client came with (tells it from one the library installed)
+	clientGB *int
 }
 
 // c13Load builds and loads one document with one path per request description and routes the requests.
@@ -378,12 +383,13 @@ func c13Load(tcs []*c13Case, line map[string]any) (*openapi3.T, []*c13Live) {
 	}
 	var live []*c13Live
 	for i, tc := range tcs {
-		req, sent := c13Request(tc, "/t"+strconv.Itoa(i+1))
+		clientGB := new(int)
+		req, sent := c13Request(tc, "/t"+strconv.Itoa(i+1), clientGB)
 		route, pp, err := router.FindRoute(req)
 		if err != nil {
 			panic("harness: c13 route: " + err.Error())
 		}
-		live = append(live, &c13Live{tc: tc, req: req, route: route, pp: pp, opts: c13Options(tc), sent: sent})
+		live = append(live, &c13Live{tc: tc, req: req, route: route, pp: pp, opts: c13Options(tc), sent: sent, clientGB: clientGB})
 	}
 	return d, live
 }
@@ -429,6 +435,22 @@ func (lv *c13Live) readBody(o map[string]any, tag string) string {
 // carriers: the other places a default can be installed in -- query string, header, cookie -- as forwarded:
 // raw query, number of values of the header / cookie, and what each parameter decodes to in the forwarded request.
 func (lv *c13Live) carriers(o map[string]any) {
+	// what kind of reader / rewind function is installed now: the client's (honours Close) or one the library made
+	o["bk"] = "lib"
+	if _, ok := lv.req.Body.(*c13Closable); ok {
+		o["bk"] = "client"
+	}
+	o["gk"] = "none"
+	if lv.req.GetBody != nil {
+		n := *lv.clientGB
+		if rc, err := lv.req.GetBody(); err == nil {
+			rc.Close()
+		}
+		o["gk"] = "lib"
+		if *lv.clientGB > n {
+			o["gk"] = "client"
+		}
+	}
 	o["q"] = lv.req.URL.RawQuery
 	o["hn"] = len(lv.req.Header.Values("ph"))
 	cn := 0
